@@ -350,6 +350,39 @@ int main(int argc, char **argv)
 				ExecLine(buf);
 			}
 		}
+		/* flapping scenarios: long alternating / stable phases so that flapping starts and ends inside and
+		 * outside suppression windows (a withheld FlappingStart/End next to withheld state notifications) */
+		int nf = thorough ? 8000 : 1200;
+		for (int i = 0; i < nf; i++) {
+			char hdr[64];
+			snprintf(hdr, sizeof hdr, "C %c %d %d 1", rng.coin() ? 'h' : 's', 1 + (int)rng.below(3), rng.below(6) == 0 ? 1 : 0);
+			ExecLine(hdr);
+			ExecLine("R 0 10 1");
+			int phases = 3 + (int)rng.below(6);
+			int bad = 2;
+			for (int ph = 0; ph < phases; ph++) {
+				int k = (int)rng.below(10);
+				char buf[64];
+				if (k < 3) { /* alternate */
+					int n = 6 + (int)rng.below(10);
+					bad = rng.coin() ? 2 : 1 + (int)rng.below(3);
+					for (int j = 0; j < n; j++) { snprintf(buf, sizeof buf, "R %d 10 1", (j & 1) ? 0 : bad); ExecLine(buf); }
+				} else if (k < 6) { /* stable */
+					int n = 10 + (int)rng.below(14);
+					int st = rng.coin() ? 0 : bad;
+					for (int j = 0; j < n; j++) { snprintf(buf, sizeof buf, "R %d 10 1", st); ExecLine(buf); }
+				} else if (k == 6) { snprintf(buf, sizeof buf, "D+ %d", (int)rng.below(2)); ExecLine(buf); }
+				else if (k == 7) { ExecLine("D- 0"); ExecLine("D- 1"); }
+				else if (k == 8) { snprintf(buf, sizeof buf, "R %d 10 1", (int)rng.below(4)); ExecLine(buf); ExecLine("F 30 0"); }
+				else { ExecLine(rng.coin() ? "A+ 1 0" : "A-"); }
+			}
+			ExecLine("D- 0"); ExecLine("D- 1"); ExecLine("A-");
+			ExecLine("F 1 0");
+			ExecLine("R -1 10 1");
+			ExecLine("F 30 0");
+			ExecLine("R -1 10 1");
+			ExecLine("F 30 1");
+		}
 		Teardown();
 	} else if (mode == "ops") {
 		if (argc < 3) return 2;
